@@ -105,7 +105,7 @@ theorem untouched_falls_through (env : Env) (i : Nat) (chain : List Nat) (n : Na
     defs env (i :: chain) n = defs env chain n ∧
       (defs env (i :: chain) n)[0]? = chain.findSome? (fun j => blockOf env j n) := by
   have h1 : defs env (i :: chain) n = defs env chain n := by
-    simp [defs, List.filterMap_cons, h]
+    simp [defs, h]
   refine ⟨h1, ?_⟩
   rw [h1]
   exact filterMap_head_eq_findSome _ chain
@@ -269,12 +269,16 @@ theorem import_exports_toplevel (env : Env) (ctx : Frame) (f : Nat) (cur : Optio
   rw [lookup_assigns_other name T.layout [] h]
   rfl
 
-def impEnv : Env :=
-  [ { layout := [.setVar 3 "mine", .importAs 1 8, .emitAttr 8 3, .text "|", .emitAttr 8 2, .text "|",
-                 .fromImport 1 3 7, .text "[", .emitVar 7, .text "]", .fromImport 1 4 6, .callVar 6],
-      blocks := [] },
-    { layout := [.text "<m>", .setVar 2 "a", .defMacro 4 "<mac>", .setVar 2 "b"], blocks := [] } ]
+def modT : Template :=
+  { layout := [.text "<m>", .setVar 2 "a", .defMacro 4 "<mac>", .setVar 2 "b"], blocks := [] }
 
-example : render impEnv [(3, .str "ctx")] 10 0 = .ok ["|", "b", "|", "[", "]", "<mac>"] := by decide
+/-- the importer's own `v3` (local and in the render context) is not what `m.v3` or
+    `from m import v3` yield; the module's last assignment of `v2` and its macro are -/
+example : render [ { layout := [.setVar 3 "mine", .importAs 1 8, .emitAttr 8 3, .text "|", .emitAttr 8 2],
+                     blocks := [] }, modT ] [(3, .str "ctx")] 10 0 = .ok ["|", "b"] := by decide
+example : render [ { layout := [.fromImport 1 3 7, .text "[", .emitVar 7, .text "]"], blocks := [] }, modT ]
+    [(3, .str "ctx")] 10 0 = .ok ["[", "]"] := by decide
+example : render [ { layout := [.fromImport 1 4 6, .callVar 6], blocks := [] }, modT ]
+    [(3, .str "ctx")] 10 0 = .ok ["<mac>"] := by decide
 
 end MJ.C06
